@@ -22,9 +22,20 @@ def plan(tier):
             'time_cap_s': 90 if tier == 'quick' else 560}
 
 
+BOUNDS = {'name': 'c02bounds', 'spec': {'shapes': ['one_lecturer', 'one_lecturer', 'lec_gt_students', 'big_targets'], 'max_s': 6, 'min_s': 2,
+                                        'max_p': 3, 'max_l': 2, 'allow_empty_lists': False},
+          'opts': {'twopl': True, 'stab': False}, 'bounds_stress': True, 'medium_rate': 0, 'shipped_rate': 0, 'large_rate': 0}
+
+
 def run_case(cs, ctx):
     quick = ctx.tier == 'quick'
-    r = lc.lp_case(cs, ctx, PROFILE, probe_rate=0.08 if quick else 0.3, probe_cap=32 if quick else 128)
+    prof = PROFILE
+    if cs % 7 == 3:
+        # few lecturers, many students, everybody forced in (maxsize first), then ONE criterion whose objective
+        # variable needs a correct upper bound (lecturer-side weights, load deviations)
+        prof = BOUNDS
+        ctx.cov('objective_bound_stress_cases')
+    r = lc.lp_case(cs, ctx, prof, probe_rate=0.08 if quick else 0.3, probe_cap=32 if quick else 128)
     f = r['facts']
     if f.get('enumerable'):
         nf = f.get('n_feasible')
